@@ -53,8 +53,26 @@ impl Property for C03 {
         let img = match model::encode(ty, &v, n, 0, &mut Canonical) {
             Ok(i) => i,
             Err(_) => {
-                // e.g. a FlexVec item whose stride is not representable in the offset type: C13/C15 territory
-                st.label("skipped: reference says the value is not representable");
+                // e.g. a sealed FlexVec item whose stride is not representable in the offset type (>= L::MAX,
+                // the reserved end marker): no encoding of this content exists, so the emplacer must refuse it
+                st.label("reference says the value is not representable");
+                let mut buf = Guarded::new(n, 0, flush_left);
+                st.eval(1);
+                let mut out = None;
+                match lib(|| sh.new_in_place(buf.slice(), &v, &route, &mut |live| out = Some(live.read()))) {
+                    Err(p) => vfail!("panic", "{}: new_in_place of a value with a non-representable FlexVec offset panicked: {}", ty.short(), p),
+                    Ok(Ok(())) => {
+                        let got = out.map(|o| o.value.show()).unwrap_or_default();
+                        vfail!(
+                            "accepts-unrepresentable",
+                            "{}: new_in_place({}) returned Ok although a sealed item's offset is not representable in the offset type; it reads back as {}",
+                            ty.short(),
+                            v.show(),
+                            got
+                        )
+                    }
+                    Ok(Err(_)) => {}
+                }
                 return Ok(());
             }
         };
